@@ -290,6 +290,10 @@ type CompareOpts struct {
 	BelowWindow bool
 	// OnlyImplies: compare nothing but ImpliesMaximalPrevotes for Header.
 	OnlyImplies bool
+	// SkipLookups: compare heights, window weights, validator info and the stored parameter
+	// heights, but do not probe GetBFTParameters / NextHeightBFTParameters / GetGeneratorKeys
+	// height by height (used where the chain never changes parameters after genesis).
+	SkipLookups bool
 }
 
 // Compare reads everything observable from the implementation's store and compares it with
@@ -361,6 +365,11 @@ func Compare(api *liskbft.API, store *diffdb.Database, m *lip58.Model, o Compare
 	lo, _ := m.Oldest()
 	if !has {
 		tip, lo = m.Prevoted, m.Prevoted
+	}
+	if o.SkipLookups {
+		compareStoredHeights(store, m, add)
+		compareImplies(api, store, m, o, add)
+		return out
 	}
 	// Heights probed: lookups are piecewise constant between stored keys, so it is enough to
 	// probe around every key stored on either side (parameters and generator keys), around
@@ -464,24 +473,7 @@ func Compare(api *liskbft.API, store *diffdb.Database, m *lip58.Model, o Compare
 		}
 	}
 	if o.BelowWindow {
-		ips, err := liskbft.VerifDumpParams(store)
-		if err != nil {
-			add("VerifDumpParams:error", err.Error())
-		} else {
-			var ih []uint32
-			for _, p := range ips {
-				ih = append(ih, p.Height)
-			}
-			rh := m.ParamHeights()
-			if fmt.Sprint(ih) != fmt.Sprint(rh) {
-				add("stored-parameter-heights", fmt.Sprintf("impl=%v ref=%v", ih, rh))
-			}
-		}
-		gh := liskbft.VerifDumpGeneratorKeyHeights(store)
-		sort.Slice(gh, func(i, j int) bool { return gh[i] < gh[j] })
-		if rh := m.GeneratorKeyHeights(); fmt.Sprint(gh) != fmt.Sprint(rh) {
-			add("stored-generator-key-heights", fmt.Sprintf("impl=%v ref=%v", gh, rh))
-		}
+		compareStoredHeights(store, m, add)
 	}
 	compareImplies(api, store, m, o, add)
 	return out
@@ -498,5 +490,26 @@ func compareImplies(api *liskbft.API, store *diffdb.Database, m *lip58.Model, o 
 		case iv != rv:
 			add(fmt.Sprintf("ImpliesMaximalPrevotes:impl=%v:ref=%v", iv, rv), fmt.Sprintf("height %d mhg %d", o.RefHeader.Height, o.RefHeader.MaxHeightGenerated))
 		}
+	}
+}
+
+func compareStoredHeights(store *diffdb.Database, m *lip58.Model, add func(k, d string)) {
+	ips, err := liskbft.VerifDumpParams(store)
+	if err != nil {
+		add("VerifDumpParams:error", err.Error())
+	} else {
+		var ih []uint32
+		for _, p := range ips {
+			ih = append(ih, p.Height)
+		}
+		rh := m.ParamHeights()
+		if fmt.Sprint(ih) != fmt.Sprint(rh) {
+			add("stored-parameter-heights", fmt.Sprintf("impl=%v ref=%v", ih, rh))
+		}
+	}
+	gh := liskbft.VerifDumpGeneratorKeyHeights(store)
+	sort.Slice(gh, func(i, j int) bool { return gh[i] < gh[j] })
+	if rh := m.GeneratorKeyHeights(); fmt.Sprint(gh) != fmt.Sprint(rh) {
+		add("stored-generator-key-heights", fmt.Sprintf("impl=%v ref=%v", gh, rh))
 	}
 }
